@@ -3,6 +3,7 @@ package fragswarm
 import (
 	"context"
 	"encoding/binary"
+	"math"
 	"runtime"
 	"sync"
 	"time"
@@ -54,7 +55,7 @@ func newSwarm[A p2p.Addr](x p2p.Swarm[A], mtu int) *swarm[A] {
 }
 
 func (s *swarm[A]) Tell(ctx context.Context, addr A, data p2p.IOVec) error {
-	if p2p.VecSize(data) > s.mtu {
+	if p2p.VecSize(data) > s.MTU() {
 		return p2p.ErrMTUExceeded
 	}
 	underMTU := s.Swarm.MTU() - Overhead
@@ -154,6 +155,10 @@ func (s *swarm[A]) handleTell(ctx context.Context, x p2p.Message[A]) error {
 }
 
 func (s *swarm[A]) MTU() int {
+	// the part index and the part count are each carried in 8 bits
+	if limit := (s.Swarm.MTU() - Overhead) * math.MaxUint8; limit < s.mtu {
+		return limit
+	}
 	return s.mtu
 }
 
